@@ -216,7 +216,8 @@ class KeyValuePairNode(ContainerNode):
 
     def edits(self, node: TreeNode) -> Edit:
         if not isinstance(node, KeyValuePairNode):
-            raise RuntimeError("KeyValuePairNode.edits() should only ever be called with another KeyValuePair object!")
+            # a mapping compared with a multiset that is not a mapping (e.g., a Python dict vs. a set): the pair is replaced
+            return Replace(self, node)
         if self.allow_key_edits or self.key == node.key:
             return KeyValuePairEdit(self, node)
         else:
